@@ -30,8 +30,12 @@ Proved here (accounting part of the property, both parsers):
   `skip_comment` end at a line start, at EOF or AT the `\n` of a line end, and `skip_blank_block` turns
   each of those into a line start (`skipBlankBlock_LSE`).
 
+* `C03_admitted_entries_valid…` (second half of this file): every admitted message or term satisfies the
+  AST-visible documented rules (`ValidEntry`), for every source and both parsers.
+
 Not a Lean theorem (checked by the correspondence harness and the property predicate on the
-implementation): every admitted entry satisfies the documented rules, and containment of a damaged entry.
+implementation): containment of a damaged entry (every OTHER entry parses exactly as before), and the three
+rules the tree cannot show (positional-after-named order, literal-ness of named values, commas).
 -/
 namespace FluentProofs.C03
 open FluentModel.Syntax
